@@ -1,2 +1,238 @@
--- Driver stub for C16 (replaced when the property's model driver is written).
-def main : IO Unit := IO.println "C16: no driver yet"
+import Lean.Data.Json
+import Std.Data.HashMap
+import TsVerif.Common.IO
+import TsVerif.Common.Tree
+import TsVerif.C16.Judge
+/-!
+Driver for C16.  Input = explorer ops (spec / nodetypes / Rust-API answers) followed by the output of
+the C unit (table dumps, answers of the real C functions, real parse trees).  Output: one line per
+language `L-<id> …` and one per tree `<case> …`.
+-/
+open TsVerif TsVerif.C16 Lean
+
+def strOfHex (h : String) : String :=
+  if h == "-" then "" else
+  let bytes := (unhexBytes h).map (fun n => UInt8.ofNat n)
+  match String.fromUTF8? (ByteArray.mk bytes.toArray) with
+  | some s => s
+  | none => "�" ++ h
+
+def bytesOfHex (h : String) : List Nat := if h == "-" then [] else unhexBytes h
+
+def nats (ws : List String) : Array Nat := (ws.map natOf).toArray
+
+/-- "a:b:c" → [a,b,c] -/
+def colon (w : String) : List Nat := (w.splitOn ":").map natOf
+
+-- node-types.json → NodeTypes -------------------------------------------------------------------
+
+def jStr (j : Json) (k : String) : String := ((j.getObjVal? k).toOption.bind (·.getStr?.toOption)).getD ""
+def jBool (j : Json) (k : String) : Bool := ((j.getObjVal? k).toOption.bind (·.getBool?.toOption)).getD false
+def jArr (j : Json) (k : String) : Option (Array Json) := (j.getObjVal? k).toOption.bind (·.getArr?.toOption)
+
+def typeRefOf (j : Json) : TypeRef := { kind := jStr j "type", named := jBool j "named" }
+def specOf (j : Json) : ChildSpec :=
+  { required := jBool j "required", multiple := jBool j "multiple",
+    types := ((jArr j "types").getD #[]).toList.map typeRefOf }
+
+def entryOf (j : Json) : Entry :=
+  let fields : List (String × ChildSpec) := match (j.getObjVal? "fields").toOption with
+    | some (.obj kvs) => kvs.foldl (fun acc k v => acc ++ [(k, specOf v)]) []
+    | _ => []
+  { ty := typeRefOf j, fields := fields,
+    children := (j.getObjVal? "children").toOption.map specOf,
+    subtypes := (jArr j "subtypes").map (fun a => a.toList.map typeRefOf) }
+
+def parseNodeTypes (text : String) : Option NodeTypes :=
+  match Json.parse text with
+  | .ok (.arr xs) => some (xs.toList.map entryOf)
+  | _ => none
+
+-- state ------------------------------------------------------------------------------------------
+
+structure LangInfo where
+  L : Lang := default
+  aliasCount : Nat := 0
+  fieldCount : Nat := 0
+  smallLen : Nat := 0
+  nt : Option NodeTypes := none
+  rla : Array (List Nat) := #[]
+  rrt : Array (Nat × Bool × Bool × Bool × Nat × List Nat) := #[]   -- id vis named sup back name
+  rfld : Array (Nat × Nat) := #[]
+  rout : String := ""
+  nz : Array (List (Nat × Nat)) := #[]
+  la : Array (List Yield) := #[]
+  laEnd : Array Nat := #[]
+  syms : Array (SymInfo × Nat) := #[]       -- with the real symbol_for_name answer
+  probes : Array (Bool × List Nat × Nat) := #[]
+  flds : Array (List Nat × Nat) := #[]      -- name, real field_id_for_name answer
+  names : Array (List Nat) := #[]
+  deriving Inhabited
+
+structure Flat where
+  depth : Nat
+  ty : TypeRef
+  extra : Bool
+  fields : List String
+
+structure St where
+  langs : Std.HashMap String LangInfo := {}
+  cur : String := ""
+  -- current tree
+  tcase : String := ""
+  tlang : String := ""
+  flat : Array Flat := #[]
+  accs : List (Nat × Nat × Nat) := []
+  accn : Array (Nat × List Nat) := #[]
+
+def St.upd (s : St) (id : String) (f : LangInfo → LangInfo) : St :=
+  { s with langs := s.langs.insert id (f (s.langs.getD id {})) }
+
+partial def buildKids (xs : Array Flat) (i depth : Nat) (acc : Array VT) : Array VT × Nat :=
+  if h : i < xs.size then
+    let x := xs[i]
+    if x.depth == depth then
+      let (kids, j) := buildKids xs (i + 1) (depth + 1) #[]
+      buildKids xs j depth (acc.push (.node x.ty x.extra x.fields kids.toList))
+    else (acc, i)
+  else (acc, i)
+
+def firstFail {α} (xs : List α) (f : α → Option String) : Option String :=
+  xs.findSome? f
+
+def showName (bs : List Nat) : String := strOfHex (String.join (bs.map (fun b => (String.singleton (Nat.digitChar (b / 16))) ++ String.singleton (Nat.digitChar (b % 16)))))
+
+/-- language-level evaluation, printed at `endlang` -/
+def evalLang (id : String) (li : LangInfo) : String :=
+  let L := li.L
+  let wf := tableWF L
+  let states := List.range L.stateCount
+  -- correspondence: ports vs real functions, all states
+  let corrLa := firstFail states (fun s =>
+    if modelYields L s == li.la.getD s [] then none else some s!"state={s}")
+  let corrLookup := firstFail states (fun s =>
+    if modelNonzero L s == li.nz.getD s [] then none else some s!"state={s}")
+  -- judge on the real outputs
+  let judgeLa := firstFail states (fun s =>
+    if !judgeLookahead (li.la.getD s []) (li.nz.getD s []) then some s!"iterator-vs-table state={s}"
+    else if li.laEnd.getD s 1 != 0 then some s!"iterator-restarts state={s}"
+    else if (li.rla.getD s []) != (li.la.getD s []).map (·.1) then some s!"rust-iterator state={s}"
+    else none)
+  let T : SymTab := { syms := li.syms.toList.map (·.1), fieldNames := li.flds.toList.map (·.1) }
+  let corrNames :=
+    (firstFail li.syms.toList (fun (si, real) =>
+      if symbolForName T si.name si.named == real then none else some s!"symbol_for_name {showName si.name}")).orElse fun _ =>
+    (firstFail li.probes.toList (fun (named, name, real) =>
+      if symbolForName T name named == real then none else some s!"probe {showName name}")).orElse fun _ =>
+    (firstFail li.flds.toList (fun (name, real) =>
+      if fieldIdForName T name == real then none else some s!"field_id_for_name {showName name}"))
+  let judgeNames :=
+    (firstFail li.syms.toList (fun (si, real) =>
+      if si.hasKind && real != si.pub && !(si.named && isErrorPrefix si.name && real == errorSym) then
+        some s!"symbol-roundtrip kind={showName si.name} named={si.named} got={real} want={si.pub}" else none)).orElse fun _ =>
+    (firstFail li.syms.toList (fun (si, real) =>
+      if si.hasKind && real != si.pub then some s!"symbol-roundtrip-error-prefix kind={showName si.name} named={si.named} got={real} want={si.pub}" else none)).orElse fun _ =>
+    (if pubConsistent T then none else some "public-symbol-map-inconsistent").orElse fun _ =>
+    (firstFail (List.range li.flds.size) (fun i =>
+      if (li.flds.getD i ([], 0)).2 == i + 1 then none else some s!"field-roundtrip id={i + 1}")).orElse fun _ =>
+    (firstFail li.rrt.toList (fun (k, vis, _named, sup, back, name) =>
+      let si := (li.syms.getD k (default, 0)).1
+      if (vis || sup) && back != si.pub && !(isErrorPrefix name && back == errorSym) then some s!"rust-kind-roundtrip id={k} kind={showName name} got={back} want={si.pub}"
+      else if name != si.name then some s!"rust-kind-name id={k}" else none)).orElse fun _ =>
+    (firstFail li.rfld.toList (fun (f, back) => if f == back then none else some s!"rust-field-roundtrip id={f}")).orElse fun _ =>
+    (if li.rout == "0 0" || li.rout == "" then none else some s!"out-of-range-id-has-name {li.rout}")
+  let modelNames := namesRoundTrip T
+  let ntwf := match li.nt with | some nt => if ntWF nt then "ok" else "FAIL" | none => "MISSING"
+  let r (o : Option String) := match o with | none => "ok" | some m => "FAIL " ++ m
+  let total := (li.la.toList.map List.length).foldl (· + ·) 0
+  s!"L-{id} tablewf={if wf then "ok" else "FAIL"} corr_la={r corrLa} corr_lookup={r corrLookup} corr_names={r corrNames} " ++
+  s!"judge_la={r judgeLa} judge_names={r judgeNames} model_names={modelNames} ntwf={ntwf} states={L.stateCount} large={L.largeStateCount} " ++
+  s!"symbols={L.symbolCount} aliases={li.aliasCount} fields={li.fieldCount} listed={total} entries={(li.nt.getD []).length}"
+
+def viaSuper (nt : NodeTypes) : VT → Nat
+  | .node ty _ _ kids =>
+    match nt.find? (fun e => e.ty == ty) with
+    | none => 0
+    | some e => (kids.filter (fun k => !k.extra && (
+        k.fields.any (fun f => (e.fields.any (fun fs => fs.1 == f && !fs.2.types.contains k.ty))) ||
+        (k.fields.isEmpty && k.ty.named && (match e.children with | some sp => !sp.types.contains k.ty | none => false))))).length
+
+partial def sumTree (f : VT → Nat) : VT → Nat
+  | .node ty e fl kids => f (.node ty e fl kids) + (kids.map (sumTree f)).foldl (· + ·) 0
+
+def evalTree (s : St) (stats : String) : String :=
+  match s.langs.get? s.tlang with
+  | none => s!"{s.tcase} judge=NOLANG"
+  | some li =>
+    let (roots, _) := buildKids s.flat 0 0 #[]
+    match roots.toList, li.nt with
+    | [root], some nt =>
+      let ok := checkConforms nt root
+      let j := if ok then "ok" else match firstBad nt [] root with
+        | some (path, ty) =>
+          let reason := if nt.any (fun e => e.ty == ty) then "entry-mismatch" else "unlisted-type"
+          s!"FAIL node-types reason={reason} type={ty.kind} tnamed={ty.named} path={path}"
+        | none => "FAIL node-types"
+      let acc1 := firstFail s.accs (fun (st, sym, leaf) =>
+        if listed li.la st sym then none else some s!"state={st} sym={sym} leaf={leaf}")
+      let acc2 := firstFail s.accn.toList (fun (st, name) =>
+        if listedName li.la li.names st name then none else some s!"state={st} name={showName name}")
+      let acc := match acc1.orElse (fun _ => acc2) with | none => "ok" | some m => "FAIL not-listed " ++ m
+      let vs := sumTree (viaSuper nt) root
+      s!"{s.tcase} judge={j} acc={acc} accpairs={s.accs.length + s.accn.size} viasuper={vs} {stats}"
+    | _, none => s!"{s.tcase} judge=NONODETYPES"
+    | _, _ => s!"{s.tcase} judge=BADTREE"
+
+def step (s : St) (line : String) : IO St := do
+  let ws := line.splitOn " "
+  match ws with
+  | ["nodetypes", id, h] =>
+    return s.upd id (fun li => { li with nt := parseNodeTypes (strOfHex h) })
+  | ["rla", id, st, syms] =>
+    let l := if syms == "-" then [] else (syms.splitOn ",").map natOf
+    return s.upd id (fun li => { li with rla := (li.rla.setIfInBounds (natOf st) l |> fun a => if a.size ≤ natOf st then a.push l else a) })
+  | ["rrt", id, k, vis, named, sup, back, name] =>
+    return s.upd id (fun li => { li with rrt := li.rrt.push (natOf k, vis == "1", named == "1", sup == "1", natOf back, bytesOfHex name) })
+  | ["rfld", id, f, back, _] => return s.upd id (fun li => { li with rfld := li.rfld.push (natOf f, natOf back) })
+  | ["rout", id, a, b] => return s.upd id (fun li => { li with rout := a ++ " " ++ b })
+  | ["lang", id, sc, ac, tc, stc, lsc, fc, sl, _kct] =>
+    let lang : Lang := { symbolCount := natOf sc, tokenCount := natOf tc, stateCount := natOf stc, largeStateCount := natOf lsc, parseTable := #[], smallTable := #[], smallMap := #[], actionCounts := #[] }
+    let s := s.upd id (fun li => { li with aliasCount := natOf ac, fieldCount := natOf fc, smallLen := natOf sl, L := lang })
+    return { s with cur := id }
+  | "pt" :: rest => return s.upd s.cur (fun li => { li with L := { li.L with parseTable := nats rest } })
+  | "spt" :: rest => return s.upd s.cur (fun li => { li with L := { li.L with smallTable := nats rest } })
+  | "spm" :: rest => return s.upd s.cur (fun li => { li with L := { li.L with smallMap := nats rest } })
+  | "ac" :: rest => return s.upd s.cur (fun li => { li with L := { li.L with actionCounts := nats rest } })
+  | "nz" :: _ :: rest =>
+    let l := rest.map (fun w => match colon w with | [a, b] => (a, b) | _ => (0, 0))
+    return s.upd s.cur (fun li => { li with nz := li.nz.push l })
+  | "la" :: _ :: rest =>
+    let ys : List Yield := (rest.filter (fun w => !w.startsWith "end:")).map (fun w => match colon w with | [a, b, c, d] => (a, b, c, d) | _ => (0, 0, 0, 0))
+    let e := match rest.find? (fun w => w.startsWith "end:") with | some w => natOf (w.drop 4).toString | none => 1
+    return s.upd s.cur (fun li => { li with la := li.la.push ys, laEnd := li.laEnd.push e })
+  | ["sym", _, vis, named, sup, pub, name, sfn] =>
+    let nm := if name == "?" then [] else bytesOfHex name
+    return s.upd s.cur (fun li => { li with
+      syms := li.syms.push ({ name := nm, visible := vis == "1", named := named == "1", supertype := sup == "1", pub := natOf pub }, natOf sfn),
+      names := li.names.push nm })
+  | ["probe", named, name, r] => return s.upd s.cur (fun li => { li with probes := li.probes.push (named == "1", bytesOfHex name, natOf r) })
+  | ["fld", _, name, r] => return s.upd s.cur (fun li => { li with flds := li.flds.push (bytesOfHex name, natOf r) })
+  | ["endlang", id] =>
+    IO.println (evalLang id (s.langs.getD id {}))
+    return s
+  | "tree" :: cid :: lang :: status :: _ =>
+    if status != "ok" then IO.println s!"{cid} skipped={status}"
+    return { s with tcase := cid, tlang := lang, flat := #[], accs := [], accn := #[] }
+  | ["v", depth, _sym, named, extra, kind, fields] =>
+    let fl := if fields == "-" then [] else (fields.splitOn ",").map strOfHex
+    return { s with flat := s.flat.push { depth := natOf depth, ty := { kind := strOfHex kind, named := named == "1" }, extra := extra == "1", fields := fl } }
+  | "accs" :: rest =>
+    return { s with accs := rest.filterMap (fun w => match colon w with | [a, b, c] => some (a, b, c) | _ => none) }
+  | ["accn", st, name] => return { s with accn := s.accn.push (natOf st, bytesOfHex name) }
+  | "endtree" :: _ :: stats =>
+    IO.println (evalTree s (" ".intercalate stats))
+    return { s with flat := #[], accs := [], accn := #[] }
+  | _ => return s
+
+def main : IO Unit := do
+  let _ ← foldLines (← IO.getStdin) ({} : St) step
